@@ -211,8 +211,7 @@ def emit_operands(T, namespace, path, note):
         if v not in arms:
             raise TranslateError("rspirv/binary/assemble.rs", v, "Operand variant without an assemble arm")
     f.list_def("asmArms", "Nat", [str(ARM[arms[v]]) for v in vnames])
-    for v in ("IdRef", "IdScope", "IdMemorySemantics", "LiteralBit32", "LiteralBit64", "LiteralString",
-              "LiteralSpecConstantOpInteger", "LiteralExtInstInteger"):
+    for v in vnames:
         f.raw(f"def v_{v} : Nat := {vnames.index(v)}")
     opv = {}
     e = hdr["enum_by_name"]["Op"]
@@ -220,7 +219,10 @@ def emit_operands(T, namespace, path, note):
     for o in ("Constant", "SpecConstant", "Switch", "TypeInt", "TypeFloat", "SpecConstantOp", "ExtInstImport", "ExtInst",
               "Capability", "Extension", "MemoryModel", "EntryPoint", "ExecutionMode", "ExecutionModeId", "String",
               "SourceExtension", "Source", "SourceContinued", "Name", "MemberName", "ModuleProcessed", "Variable", "Undef",
-              "Function", "FunctionEnd", "FunctionParameter", "Label", "Line", "NoLine", "Return", "ReturnValue", "Nop"):
+              "Function", "FunctionEnd", "FunctionParameter", "Label", "Line", "NoLine", "Return", "ReturnValue", "Nop",
+              "DecorationGroup", "TypeForwardPointer", "TypePointer", "TypeOpaque", "TypeVoid", "TypeBool", "TypeVector",
+              "TypeFunction", "TypeStruct", "TypeArray", "TypeMatrix", "ConstantComposite", "ConstantTrue", "ConstantFalse",
+              "Phi", "Branch", "BranchConditional", "Kill", "Unreachable"):
         f.raw(f"def op_{o} : Nat := {opv[o]}")
 
     def elem(item, v, m):
@@ -261,4 +263,94 @@ def emit_operands(T, namespace, path, note):
                 rr = ", ".join(f"({vals[en_]}, [" + ", ".join(elem(fn, vv, mm) for vv, mm in es) + "])" for en_, es in rws)
                 acts.append(f".enumParams {elem(k, v, m)} [{rr}]")
     f.list_def("kindActs", "KindAct", acts)
+    return write_if_changed(path, f.text())
+
+
+def emit_builder(T, namespace, path, note):
+    from rusttok import TranslateError
+    from translate.builder import SECTIONS as BSECT
+    hdr = T["header"]
+    en = [e["name"] for e in hdr["enums"]]
+    mk = [m["name"] for m in hdr["masks"]]
+    vnames = [v for v, _ in T["operand_enum"]]
+    opv = dict(hdr["enum_by_name"]["Op"]["decl"])
+    for a, t in hdr["enum_by_name"]["Op"]["aliases"]:
+        opv[a] = opv[t]
+    FILE = "rspirv/dr/build"
+
+    def pt(t):
+        k = t[0]
+        if k == "insert_point": return ".insertPoint"
+        if k == "word": return ".word"
+        if k == "u32": return ".u32"
+        if k == "string": return ".str"
+        if k == "spirv":
+            if t[1] in mk: return f"(.maskT {mk.index(t[1])})"
+            if t[1] in en: return f"(.enumT {en.index(t[1])})"
+            raise TranslateError(FILE, t[1], "unknown spirv type in a Builder signature")
+        if k == "opt": return f"(.opt {pt(t[1])})"
+        if k == "iter":
+            it = t[1]
+            if it[0] == "word": return ".iterWord"
+            if it[0] == "u32": return ".iterU32"
+            if it[0] == "operand": return ".iterOperand"
+            if it[0] == "pair":
+                code = {"word": 0, "u32": 1, "operand": 2}
+                return f"(.iterPair {code[it[1][0]]} {code[it[2][0]]})"
+        raise TranslateError(FILE, str(t), "unexpected parameter type shape")
+
+    def vi(name, v):
+        if v not in vnames:
+            raise TranslateError(FILE, name, f"unknown Operand variant {v}")
+        return vnames.index(v)
+
+    f = LeanFile(namespace, ["Rspirv.Generic.Method"], note)
+    f.raw("open Rspirv")
+    rows = []
+    for m in T["builder"]:
+        pidx = {pn: i for i, (pn, _) in enumerate(m["params"])}
+        params = "[" + ", ".join(pt(t) for _, t in m["params"]) + "]"
+        if m["kind"] == "wrapper":
+            rows.append(f"⟨{nc(m['name'])}, {params}, 0, none, 0, 0, [], 0, 0, false, {nc(m['callee'])}⟩")
+            continue
+        if m["opname"] not in opv:
+            raise TranslateError(m["file"], m["name"], f"unknown opcode {m['opname']}")
+
+        def P(name):
+            if name not in pidx:
+                raise TranslateError(m["file"], m["name"], f"body uses `{name}` which is not a parameter")
+            return pidx[name]
+        rt = "none" if m["rtype"][0] == "none" else f"(some {P(m['rtype'][1])})"
+        if m["rtype"][0] == "var":
+            raise TranslateError(m["file"], m["name"], "result type must be None or Some(param)")
+        idr = m["idrule"]
+        if idr is None:
+            idk, idp = 0, 0
+        elif idr[0] == "fresh":
+            idk, idp = 1, 0
+        elif idr[0] == "param_or_fresh":
+            idk, idp = 2, P(idr[1])
+        else:
+            idk, idp = 3, P(idr[1])
+        slots = [f".one {vi(m['name'], v)} {P(p)}" for v, p in m["init"]]
+        for e in m["extras"]:
+            if e[0] == "opt":
+                slots.append(f".optS {vi(m['name'], e[1])} {P(e[2])}")
+            elif e[0] == "many":
+                slots.append(f".many {vi(m['name'], e[1])} {P(e[2])}")
+            elif e[0] == "raw":
+                slots.append(f".raw {P(e[1])}")
+            else:
+                parts = e[1]
+                if [p[1] for p in parts] != [0, 1]:
+                    raise TranslateError(m["file"], m["name"], "pair loop does not push .0 then .1")
+                vs = ["none" if p[0] == "raw" else f"(some {vi(m['name'], p[0])})" for p in parts]
+                slots.append(f".pairs {vs[0]} {vs[1]} {P(e[2])}")
+        sk = m["sink"]
+        sink, sect = {"section": 0, "block": 1, "end_block": 2, "dedup": 3}[sk[0]], 10
+        if sk[0] == "section":
+            sect = BSECT.index(sk[1])
+        has_ip = "true" if any(t == ("insert_point",) for _, t in m["params"]) else "false"
+        rows.append(f"⟨{nc(m['name'])}, {params}, {opv[m['opname']]}, {rt}, {idk}, {idp}, [" + ", ".join(slots) + f"], {sink}, {sect}, {has_ip}, 0⟩")
+    f.list_def("methods", "MethodSpec", rows)
     return write_if_changed(path, f.text())
